@@ -236,6 +236,37 @@ func propC07(c *Ctx) {
 		a := bs[c.R.Intn(len(bs))]
 		c.Op(fmt.Sprintf("date.add %d %d %d %d %d %d", a[0], a[1], a[2], grid[c.R.Intn(len(grid))], grid[c.R.Intn(len(grid))], grid[c.R.Intn(len(grid))]))
 	}
+	// order far outside years 0000-9999: every date New can build (|year| up to 999,999,999 and the int32
+	// extremes of the stored year) must still order chronologically
+	far := [][3]int{{-2147483647, 1, 1}, {-999999999, 12, 31}, {-5000000, 6, 15}, {-4194305, 1, 1}, {-4194304, 12, 31}, {-4194303, 1, 1},
+		{-70000, 2, 28}, {-1, 12, 31}, {0, 1, 1}, {1, 1, 1}, {2020, 8, 7}, {9999, 12, 31}, {10000, 1, 1}, {32767, 6, 1}, {32768, 6, 1}, {65536, 1, 1},
+		{4194303, 12, 31}, {4194304, 12, 31}, {4194305, 1, 1}, {5000000, 1, 1}, {16777216, 3, 3}, {999999999, 12, 31}, {2147483647, 12, 31}}
+	for i := 0; i < 12; i++ {
+		y := int(int32(c.R.Next()))
+		if y == -2147483648 {
+			y++
+		}
+		far = append(far, [3]int{y, 1 + c.R.Intn(12), 1 + c.R.Intn(28)})
+	}
+	for _, a := range far {
+		da := date.New(a[0], time.Month(a[1]), a[2])
+		oa := ordinal(a[0], a[1], a[2])
+		for _, b := range far {
+			db := date.New(b[0], time.Month(b[1]), b[2])
+			ob := ordinal(b[0], b[1], b[2])
+			line := fmt.Sprintf("date.cmp %d %d %d %d %d %d", a[0], a[1], a[2], b[0], b[1], b[2])
+			c.Op(line)
+			c.Check(line)
+			if da.Before(db) != (oa < ob) || da.After(db) != (oa > ob) || da.Equal(db) != (oa == ob) {
+				c.Fail("C07.order.far", line, "%v vs %v: before=%v equal=%v after=%v", da, db, da.Before(db), da.Equal(db), da.After(db))
+			}
+			if diff := oa - ob; diff < 106751 && diff > -106751 {
+				if int64(da.DaysBetween(db)) != diff {
+					c.Fail("C07.days.far", "date.sub "+line[9:], "%d, want %d", da.DaysBetween(db), diff)
+				}
+			}
+		}
+	}
 	// structured Add: one component at a time from month ends and leap days (AddDate normalisation:
 	// 29 Feb + 1 year = 1 Mar, 31 Jan + 1 month = 2/3 Mar …), against the independent ordinal
 	for _, a := range bs {
@@ -837,6 +868,12 @@ func propC15(c *Ctx) {
 			b = [3]int{a[0], a[1], 1 + c.R.Intn(dim(a[0], a[1]))}
 		}
 		switch i % 37 {
+		case 3:
+			a = [3]int{-5000000, 3, 1}
+		case 4:
+			b = [3]int{5000000, 3, 1}
+		case 5:
+			p = [3]int{4194305 * (1 - 2*(i%2)), 1, 1}
 		case 0:
 			a = [3]int{1, 1, 1}
 		case 1:
